@@ -166,11 +166,16 @@ class PropCheck:
                 break
             cands = []
             for fi, f in enumerate(cur.fields):
-                if isinstance(f, tuple):
+                if isinstance(f, tuple) and cur.impl is None:
+                    tried, got = 0, 0
                     for smaller in shrink_tuple(f):
+                        tried += 1
+                        if tried > 400 or got >= 60:
+                            break
                         nf = list(cur.fields)
                         nf[fi] = smaller
-                        if cur.impl is None and gen_valid(smaller):
+                        if gen_valid(smaller):
+                            got += 1
                             cands.append(Case("s%d" % len(cands), cur.kind, nf, cur.meta))
             if cur.impl is not None and hasattr(self, "shrink_e2e"):
                 cands = self.shrink_e2e(cur)
@@ -356,26 +361,39 @@ def run_both(cases):
 
 
 def shrink_tuple(t):
-    """strictly smaller variants of an s-expression tuple: drop one element of a variadic list,
-    or replace a subtree by one of its same-sorted children"""
+    """strictly smaller variants of an s-expression tuple (lazily): drop a chunk (half, quarter, ... one element) of a
+    variadic list, or replace a subtree by one of its same-sorted children"""
     VARIADIC = {"q": 1, "a": 1, "o": 1, "sels": 1, "or": 1, "and": 1, "rel": 1, "abs": 1, "sq": 2, "custom": 2, "s": 1}
-    out = []
     if not isinstance(t, tuple) or not t:
-        return out
+        return
     tag = t[0]
     if tag in VARIADIC:
         st = VARIADIC[tag]
+        n = len(t) - st
+        if n > 32:
+            # a long list: only offer to keep one half / to drop one quarter, and nothing below it (cheap rounds first)
+            h = n // 2
+            yield t[:st] + t[st:st + h]
+            yield t[:st] + t[st + h:]
+            qn = n // 4
+            for i in range(st, len(t), qn):
+                yield t[:i] + t[i + qn:]
+            return
+        chunk = n // 2
+        while chunk >= 2:
+            for i in range(st, len(t), chunk):
+                yield t[:i] + t[i + chunk:]
+            chunk //= 2
         for i in range(st, len(t)):
-            out.append(t[:i] + t[i + 1:])
+            yield t[:i] + t[i + 1:]
     if tag == "desc":
-        out.append(t[1])
+        yield t[1]
     if tag in ("or", "and") and len(t) == 2:
-        out.append(t[1])
+        yield t[1]
     for i in range(1, len(t)):
         if isinstance(t[i], tuple):
             for s in shrink_tuple(t[i]):
-                out.append(t[:i] + (s,) + t[i + 1:])
-    return out
+                yield t[:i] + (s,) + t[i + 1:]
 
 
 def main(registry):
